@@ -37,6 +37,7 @@ func runC09(seed uint64, n int, tier string, outDir string) []*Stats {
 	all = append(all, streamFSCache(seed, n, cf))
 	all = append(all, streamSI(seed, n, cf))
 	all = append(all, streamOptEq(seed, n, cf))
+	all = append(all, streamWatchFS(seed, n, tmp, cf))
 	all = append(all, extraStreams(seed, n, tier, tmp, cf)...)
 
 	if err := os.WriteFile(filepath.Join(outDir, "c09_cases.v"), []byte(cf.String()), 0o644); err != nil {
